@@ -191,6 +191,13 @@ def main(argv=None):
     print(f"[{prop}] counters: {json.dumps(interesting)}")
     for slug, n in sorted(known.items()):
         print(f"KNOWN-FINDING: property={prop} {findings.describe(prop, slug)} [observed {n}x this run]")
+    if vio_lines and os.environ.get("VERIF_SUMMARY"):
+        classes = Counter()
+        for _rp, w in vio_lines:
+            f = w.get("features") or {}
+            classes[(w["monitor"],) + tuple(f"{k}={f[k]}" for k in sorted(f) if k not in ("label", "len"))] += 1
+        for cls, n in classes.most_common(60):
+            print(f"  class x{n}: {' '.join(cls)}")
     for rpath, w in vio_lines[:25]:
         print(f"VIOLATION property={prop} replay={rpath}")
         print(f"    monitor={w['monitor']}: {w['what']}")
